@@ -3,7 +3,7 @@
 
     Model: SM/Dispatch.v (actors = deterministic FIFO mailbox machines; what each path sends is
     read off Gen/DispatchTables.v, generated from src/raft/filestore/raftdata.rs on every run). *)
-From RN Require Import SM.Dispatch SM.DispatchProofs SM.DispatchInst.
+From RN Require Import SM.Dispatch SM.DispatchProofs SM.DispatchInst SM.Concrete SM.DispatchConcrete.
 From Coq Require Import NArith.
 
 (** The three generated tables (apply_log_to_state_machine, do_send_log, load_log) handle every
@@ -39,7 +39,7 @@ Theorem C07_same_sequence_same_state :
     forallb (prep_ok payload decodable) reqs = true ->
     Forall (no_forward payload M build fwd decodable) reqs ->
     let wl := final_leader payload M S build step fwd decodable n1 sched1 reqs w in
-    let wf := final_follower payload M S build step fwd decodable n2 sched2 (split batching reqs) w in
+    let wf := final_follower payload M S build step fwd decodable n2 sched2 (Dispatch.split batching reqs) w in
     let wr := final_replay payload M S build step fwd decodable n3 sched3 reqs w in
     quiescent M S wl /\ quiescent M S wf /\ quiescent M S wr /\
     forall a, wst wl a = wst wf a /\ wst wl a = wst wr a /\
@@ -50,7 +50,7 @@ Proof. exact same_sequence_same_state. Qed.
 (** every list of batches is a [split]: the quantification over [batching] covers all
     batchings *)
 Theorem C07_split_covers_all_batchings :
-  forall (A : Type) (sizes : list nat) (l : list A), List.concat (split sizes l) = l.
+  forall (A : Type) (sizes : list nat) (l : list A), List.concat (Dispatch.split sizes l) = l.
 Proof. exact (fun A => @concat_split A). Qed.
 
 (** ApplyRequest / ApplyBatchRequest record the last applied index identically. *)
@@ -63,7 +63,7 @@ Theorem C07_last_applied_tracks :
     forallb (fun r => handler_ok (q_payload r)) (map snd entries) = true ->
     let idx := last_index payload entries (am_last am) in
     let al := leader_applied payload M build decodable handler_ok entries am in
-    let af := follower_applied payload M build decodable (split batching entries) am in
+    let af := follower_applied payload M build decodable (Dispatch.split batching entries) am in
     am_last al = idx /\ last (am_saved al) 0%N = idx /\
     am_last af = idx /\ last (am_saved af) 0%N = idx.
 Proof. exact last_applied_tracks. Qed.
@@ -86,7 +86,7 @@ Theorem C07_same_state_without_prep_ok_refuted :
   exists reqs batching,
     Forall (no_forward tpayload tmsg tbuild tfwd tdecodable) reqs /\
     wst (t_leader 1 [] reqs) AConfig = wst (t_replay 1 [] reqs) AConfig /\
-    wst (t_leader 1 [] reqs) AConfig <> wst (t_follower 1 [] (split batching reqs)) AConfig.
+    wst (t_leader 1 [] reqs) AConfig <> wst (t_follower 1 [] (Dispatch.split batching reqs)) AConfig.
 Proof. exact poison_refuted. Qed.
 
 (** REFUTED without [no_forward] (known finding C07:tcache-forward-race): a T_CACHE table
@@ -96,6 +96,42 @@ Theorem C07_same_state_without_no_forward_refuted :
   exists reqs batching,
     forallb (prep_ok tpayload tdecodable) reqs = true /\
     quiescent tmsg tstate (t_leader 2 [] reqs) /\
-    quiescent tmsg tstate (t_follower 2 [] (split batching reqs)) /\
-    wst (t_leader 2 [] reqs) ACache <> wst (t_follower 2 [] (split batching reqs)) ACache.
+    quiescent tmsg tstate (t_follower 2 [] (Dispatch.split batching reqs)) /\
+    wst (t_leader 2 [] reqs) ACache <> wst (t_follower 2 [] (Dispatch.split batching reqs)) ACache.
 Proof. exact forward_refuted. Qed.
+
+(** * Round 2: concrete handlers *)
+
+(** C07 with CONCRETE handlers instead of abstract ones: the ConfigActor store (builder E's
+    SM/Config.v: cache, index, history, sequence), SequenceDbManager and the TableManager rows.
+    For every request sequence in scope ([cscope], a boolean on each request: a ConfigFullValue
+    value decodes; no non-default tenant in a config key and no T_CACHE row — the two
+    notifications recorded as findings), every batching and every scheduling, the three paths
+    leave the config store, the sequence counters and the table rows IDENTICAL. *)
+Theorem C07_same_state_config_seq :
+  forall (H : str -> str) (reqs : list (req cpayload)) (batching : list nat)
+         (n1 n2 n3 : nat) (sched1 sched2 sched3 : list (list actor)),
+    (1 <= n1)%nat -> (1 <= n2)%nat -> (1 <= n3)%nat ->
+    forallb cscope reqs = true ->
+    let wl := final_leader cpayload cdmsg cstate cbuild (cstep H) cfwd cdecodable n1 sched1 reqs cinit_world in
+    let wf := final_follower cpayload cdmsg cstate cbuild (cstep H) cfwd cdecodable n2 sched2 (Dispatch.split batching reqs) cinit_world in
+    let wr := final_replay cpayload cdmsg cstate cbuild (cstep H) cfwd cdecodable n3 sched3 reqs cinit_world in
+    quiescent cdmsg cstate wl /\ quiescent cdmsg cstate wf /\ quiescent cdmsg cstate wr /\
+    forall a, wst wl a = wst wf a /\ wst wl a = wst wr a.
+Proof. exact same_state_config_seq. Qed.
+
+(** non-vacuity: eight requests over config (publish, import, remove), sequence and table are in
+    scope, and the leader path ends with the expected contents; a tenant key and a T_CACHE row
+    are out of scope *)
+Theorem C07_config_seq_satisfiable :
+  forallb cscope dreqs = true /\
+  (let w := final_leader cpayload cdmsg cstate cbuild (cstep Hrev) cfwd cdecodable 1 [] dreqs cinit_world in
+   wst w ASequence = SSeq [(bl "seq1", 102%N)] /\
+   match wst w AConfig with
+   | SCfg s => option_map (fun v => cv_content v) (cache_get s (key_of_string dkey)) = Some (bl "a: 2") /\
+               option_map (fun v => cv_content v) (cache_get s (key_of_string (bl "k2" ++ [2%N] ++ bl "g"))) = Some (bl "full")
+   | _ => False
+   end) /\
+  cscope (mkReq VConfigRemove (PRemove (bl "d" ++ [2%N] ++ bl "g" ++ [2%N] ++ bl "t1"))) = false /\
+  cscope (mkReq VTableManagerReq (PTab (TSet T_CACHE_B (bl "k") (bl "v")))) = false.
+Proof. exact (conj dreqs_in_scope (conj dreqs_outcome tenant_key_out_of_scope)). Qed.
